@@ -1388,3 +1388,42 @@ func varargsArray(v ssa.Value) (*ssa.Alloc, int, types.Type) {
 	}
 	return a, int(at.Len()), at.Elem()
 }
+
+// stableFormula: the stable designator d denotes in state st the same content as at entry.
+func (vc *FuncVC) stableFormula(d string, st *State) Term {
+	entry := vc.entryState
+	env := vc.newEnv(entry, entry)
+	if strings.HasSuffix(d, "[*]") {
+		e, err := ParseExpr(strings.TrimSuffix(d, "[*]"))
+		if err != nil {
+			panic(err)
+		}
+		sv := vc.eval(env, e)
+		if mt, isMap := sv.Typ.Underlying().(*types.Map); isMap {
+			dc, vn := vc.mapComps(mt)
+			var cs []Term
+			for _, c := range []string{dc, vn} {
+				_, row := arrayParts(vc.comps[c])
+				cs = append(cs, Eq(Select(st.get(c), sv.T, row), Select(entry.get(c), sv.T, row)))
+			}
+			return And(cs...)
+		}
+		sl := sv.Typ.Underlying().(*types.Slice)
+		if isStruct(sl.Elem()) {
+			return tTrue
+		}
+		c := vc.elemComp(sl.Elem())
+		_, row := arrayParts(vc.comps[c])
+		arr := T(app("s_arr", sv.T), SInt)
+		return Eq(Select(st.get(c), arr, row), Select(entry.get(c), arr, row))
+	}
+	e, err := ParseExpr(d)
+	if err != nil {
+		panic(err)
+	}
+	var cs []Term
+	for _, l := range vc.designatorLocs(env, e) {
+		cs = append(cs, Eq(vc.loadLoc(st, l), vc.loadLoc(entry, l)))
+	}
+	return And(cs...)
+}
